@@ -531,3 +531,10 @@ def fx_pairaccess(fx):
     narrow.pair_accessor(c1, fx, "pairfx::V::ok_get2")
     narrow.pair_accessor(c2, fx, "pairfx::V::bad_get2")
     return not c1.violations and len(c2.violations) == 1
+
+
+def fx_partial(fx):
+    from rules import partial
+    c = _ctx()
+    n = partial.run(c, fx, ["src/lib.rs"], only=lambda fid: "partialfx::" in fid)
+    return n == 3 and _fires(c, "bad_flush") and not _fires(c, "ok_flush") and not _fires(c, "drain_to")
